@@ -1827,3 +1827,136 @@ pub(crate) fn h_c20_every_element() {
     let r = load_from_string(EVERY_ELEMENT, None, strict);
     c20_observe(&r);
 }
+
+// ------------------------------------------------------------------ C04: the grammar element by element (documents generated from the frozen reference grammar)
+
+fn parser_error_variant(e: &A2lError) -> &'static str {
+    match e {
+        A2lError::ParserError { parser_error } => match parser_error {
+            ParserError::UnexpectedTokenType { .. } => "UnexpectedTokenType",
+            ParserError::MalformedNumber { .. } => "MalformedNumber",
+            ParserError::InvalidEnumValue { .. } => "InvalidEnumValue",
+            ParserError::InvalidMultiplicityTooMany { .. } => "InvalidMultiplicityTooMany",
+            ParserError::InvalidMultiplicityNotPresent { .. } => "InvalidMultiplicityNotPresent",
+            ParserError::IncorrectBlockError { .. } => "IncorrectBlockError",
+            ParserError::IncorrectKeywordError { .. } => "IncorrectKeywordError",
+            ParserError::IncorrectEndTag { .. } => "IncorrectEndTag",
+            ParserError::UnknownSubBlock { .. } => "UnknownSubBlock",
+            ParserError::UnexpectedEOF { .. } => "UnexpectedEOF",
+            ParserError::StringTooLong { .. } => "StringTooLong",
+            ParserError::BlockRefDeprecated { .. } => "BlockRefDeprecated",
+            ParserError::BlockRefTooNew { .. } => "BlockRefTooNew",
+            ParserError::EnumRefDeprecated { .. } => "EnumRefDeprecated",
+            ParserError::EnumRefTooNew { .. } => "EnumRefTooNew",
+            ParserError::InvalidIdentifier { .. } => "InvalidIdentifier",
+            ParserError::AdditionalTokensError { .. } => "AdditionalTokensError",
+            _ => "other",
+        },
+        _ => "not a parser error",
+    }
+}
+
+/// document k of the generated family: one (parent, element) pair of the reference grammar, either in its specified
+/// form or with exactly one deviation. `chunk` of `chunks` selects every chunks-th document.
+fn grammar_deviation(chunk: u32, chunks: u32) {
+    let n = crate::verif_dev::N_DEV;
+    vrt_cover(n > 0, "deviation documents are in place");
+    if n == 0 { return; }
+    let per = (n + chunks - 1 - chunk) / chunks;
+    let k = chunk + chunks * vrt_choice(per);
+    let (text, kind, expect, hard) = crate::verif_dev::dev_doc(k);
+    let strict = load_from_string(text, None, true);
+    let relaxed = load_from_string(text, None, false);
+    if kind == "valid" {
+        match &strict {
+            Ok((file, log)) => {
+                vrt_check(log.is_empty(), "C04 an element in its specified form loads in strict mode without any diagnostic");
+                // every value is readable from the model: the written text holds the same tokens
+                let out = file.write_to_string();
+                let a = significant(text);
+                let b = significant(&out);
+                let mut same = a.len() == b.len();
+                if same { for i in 0..a.len() { if a[i].0 != b[i].0 || (a[i].0 != 5 && a[i].1 != b[i].1) || (a[i].0 == 5 && number_value(&a[i].1) != number_value(&b[i].1)) { same = false; } } }
+                vrt_check(same, "C04 every value of an element in its specified form is readable from the model");
+            }
+            Err(_) => vrt_check(false, "C04 an element in its specified form is accepted in strict mode"),
+        }
+        match &relaxed {
+            Ok((_, log)) => vrt_check(log.is_empty(), "C04 an element in its specified form loads without any diagnostic"),
+            Err(_) => vrt_check(false, "C04 an element in its specified form is accepted"),
+        }
+    } else if hard {
+        match (&strict, &relaxed) {
+            (Err(es), Err(er)) => {
+                if expect != "*" {
+                    vrt_check(parser_error_variant(es) == expect && parser_error_variant(er) == expect, "C04 a structural deviation produces the corresponding diagnostic class");
+                }
+            }
+            _ => vrt_check(false, "C04 a structural deviation (missing parameter, wrong block form, unknown enum value) is an error in both modes"),
+        }
+    } else if kind == "deprecated" {
+        match (&strict, &relaxed) {
+            (Ok((_, ls)), Ok((_, lr))) => {
+                vrt_check(ls.len() == 1 && parser_error_variant(&ls[0]) == expect && lr.len() == 1 && parser_error_variant(&lr[0]) == expect, "C04 a deprecated element produces a deprecation notice");
+            }
+            _ => vrt_check(false, "C04 a deprecated element is accepted with a notice in both modes"),
+        }
+    } else {
+        match &strict {
+            Err(e) => vrt_check(parser_error_variant(e) == expect, "C04 a recoverable deviation makes strict loading fail with the corresponding diagnostic class"),
+            Ok(_) => vrt_check(false, "C04 a recoverable deviation (multiplicity, version) is rejected in strict mode"),
+        }
+        match &relaxed {
+            Ok((_, log)) => {
+                let mut found = false;
+                for e in log.iter() { if parser_error_variant(e) == expect { found = true; } }
+                vrt_check(found, "C04 a recoverable deviation is reported with the corresponding diagnostic class in non-strict mode");
+            }
+            Err(_) => vrt_check(false, "C04 non-strict loading recovers from a recoverable deviation"),
+        }
+    }
+    vrt_observe_u64(k as u64);
+}
+pub(crate) fn h_grammar_0() { grammar_deviation(0, 4); }
+pub(crate) fn h_grammar_1() { grammar_deviation(1, 4); }
+pub(crate) fn h_grammar_2() { grammar_deviation(2, 4); }
+pub(crate) fn h_grammar_3() { grammar_deviation(3, 4); }
+
+/// version gates with the file version as solver variable: for every version-gated element / enum value of the
+/// reference grammar the diagnostic appears exactly for the file versions outside the specified range
+pub(crate) fn h_grammar_versions() {
+    let n = crate::verif_dev::N_GATED;
+    vrt_cover(n > 0, "version-open documents are in place");
+    if n == 0 { return; }
+    let k = vrt_choice(n);
+    let (rest, lo, up, kind) = crate::verif_dev::gated_doc(k);
+    let d1 = vrt_byte_from(b"567");
+    let d2 = vrt_byte_from(b"01");
+    let v = 100 + (d1 - b'0') as u32 * 10 + (d2 - b'0') as u32;
+    let mut text = String::from("ASAP2_VERSION 1 ");
+    text.push(d1 as char);
+    text.push(d2 as char);
+    text.push('\n');
+    text.push_str(rest);
+    let expect = if kind == "too_new" { "BlockRefTooNew" } else if kind == "enum_value_too_new" { "EnumRefTooNew" } else { "BlockRefDeprecated" };
+    let strict = load_from_string(&text, None, true);
+    match load_from_string(&text, None, false) {
+        Ok((_, log)) => {
+            let mut has = false;
+            for e in log.iter() { if parser_error_variant(e) == expect { has = true; } }
+            if lo > 0 {
+                vrt_check(has == (v < lo), "C04 an element / enum value is reported as too new exactly for file versions below its lower bound");
+                if v >= lo {
+                    vrt_check(log.is_empty() && strict.is_ok(), "C04 an element at or above its lower version bound loads without any diagnostic, also in strict mode");
+                } else {
+                    vrt_check(strict.is_err(), "C04 an element below its lower version bound is rejected in strict mode");
+                }
+            }
+            if up > 0 {
+                vrt_check(has == (v > up), "C04 an element is reported as deprecated exactly for file versions above its upper bound");
+            }
+        }
+        Err(_) => vrt_check(false, "C04 non-strict loading accepts a version-gated element at every file version"),
+    }
+    vrt_observe_u64(v as u64);
+}
